@@ -35,7 +35,8 @@ def run(chk):
         return
     tpath = strait[0]["path"]
     wrappers = [im for im in p.impls_of(trait=tpath) if "tokio::sync" in im["self_ty"]]
-    chk.require("R1 lock discipline", "R1|wrappers", len(wrappers) == 4, tpath, "expected 4 lock-wrapper impls with the tokio feature, found %d" % len(wrappers))
+    nwrap = 4 if p.config != "default" else 0  # the wrappers are gated by the `tokio` feature
+    chk.require("R1 lock discipline", "R1|wrappers", len(wrappers) == nwrap or (nwrap == 0 and not wrappers), tpath, "expected %d lock-wrapper impls, found %d" % (nwrap, len(wrappers)))
     for im in wrappers:
         st = tidy(im["self_ty"])
         for item in im["items"]:
@@ -144,7 +145,7 @@ def run(chk):
                        ("value read by find_credentials (%s) is written back by %s after suspending in: %s — two overlapping ceremonies read the same counter and both store counter+1"
                         % (where(b, r.call_bb), wm, [short(a.callee() or "?") for a in between])) if between else "no foreign suspension point between read and write")
     chk.require("R4 read-modify-write atomicity", "R4|instances", n_r4 >= 1, AUTH, "no read-modify-write instance found (get_assertion's counter update expected)")
-    chk.floor("R1", 16)
+    chk.floor("R1", 16, default=0)
     chk.floor("R2", 5)
     chk.floor("R3", 1)
     chk.floor("R4", 1)
